@@ -19,6 +19,13 @@ impl Clone for Timestamp { fn clone(&self) -> Self { *self } }
 /// R11: `a < b` on Timestamp (derived PartialOrd on the tuple struct = order of the seconds)
 #[verifier::external_body]
 pub fn ts_lt(a: Timestamp, b: Timestamp) -> (r: bool) ensures r == (a.0 < b.0) { a.0 < b.0 }
+impl Timestamp {
+    /// derived Ord on the tuple struct: `a.min(b)` / `a.max(b)` by the seconds
+    #[verifier::external_body]
+    pub fn min(self, o: Timestamp) -> (r: Timestamp) ensures r.0 == (if self.0 <= o.0 { self.0 } else { o.0 }) { unimplemented!() }
+    #[verifier::external_body]
+    pub fn max(self, o: Timestamp) -> (r: Timestamp) ensures r.0 == (if self.0 >= o.0 { self.0 } else { o.0 }) { unimplemented!() }
+}
 pub open spec fn clamped(sd: Option<Timestamp>, x: Timestamp, r: Timestamp) -> bool {
     match sd {
         Some(d) => r.0 == (if d.0 < x.0 { d.0 } else { x.0 }),   // min(source date, x): never later than the source date
@@ -33,7 +40,9 @@ impl PackageBuilder {
           start='            file_devices.push(1);\n', end='            file_mtimes.push(mtime.into());',
           subs=[LT],
           header='''    /// file modification time recorded in the header
-    pub fn c11_mtime(&self, entry: &PackageFileEntry) -> (r: Timestamp)
+    /// (`now`, `build_time`: the clock reading and the clamped build time prepare_data computes elsewhere - see b10 of unit c06_files)
+    pub fn c11_mtime(&self, entry: &PackageFileEntry, now: Timestamp, build_time: Timestamp) -> (r: Timestamp)
+        requires clamped(self.source_date, now, build_time),
         ensures clamped(self.source_date, entry.modified_at, r),''',
           tail='\n            mtime'),
     Block(BUILDER, 'prepare_data', impl='impl PackageBuilder', exclusive=True,
